@@ -62,6 +62,7 @@ def check(ctx):
         return impls.index(d) if d in impls else -1
 
     cases = []
+    expected_run = []
     names = list(F.FUNCTIONS.keys())
     if names != meta["names"]:
         ctx.broken("registry.json is stale w.r.t. the running FUNCTIONS (translator did not run?)")
@@ -109,6 +110,8 @@ def check(ctx):
             else:
                 real = "err nomatch"
             cases.append(("disp %s %s -" % (name, ",".join(map(str, tup)) or "-"), real, key))
+            if len(tup) <= 2 or rng.random() < 0.2:
+                expected_run.append((name, tup, chosen if app else None, key))
     # ---- keywords: every keyword-taking function, known/unknown names, right/wrong kinds
     kwn = meta["kwnames"]
     for name in names:
@@ -303,3 +306,57 @@ def check(ctx):
         finally:
             for n in names:
                 F.FUNCTIONS[n][:] = saved[n]
+
+    # ---- which implementation RUNS, observed through dispatch() itself (not through the lookup helpers), in three visiting
+    # orders: the choice for a kind tuple must not depend on which tuples the same name was called with before (a cache keyed
+    # too coarsely is right for whichever kind comes first and wrong for the other)
+    class _Ran(Exception):
+        def __init__(self, h):
+            self.h = h
+    saved_f = []
+    for nm in names:
+        for h in F.FUNCTIONS[nm]:
+            saved_f.append((h, h.f))
+
+            def _mk(hh):
+                def _w(*a, **kw):
+                    raise _Ran(hh)
+                return _w
+            h.f = _mk(h)
+    unobserved = 0
+    try:
+        orders = [list(expected_run), list(reversed(expected_run)), rng.sample(expected_run, len(expected_run))]
+        reported = set()
+        for oi, order in enumerate(orders):
+            prev = None
+            for name, tup, exp, key in order:
+                args = [valist[i] for i in tup]
+                ran, outcome = None, None
+                try:
+                    with core.alarm(5):
+                        F.dispatch(name, list(args))
+                    outcome = "returned"
+                except _Ran as e:
+                    ran, outcome = e.h, "ran"
+                except core.Timeout:
+                    raise
+                except Exception as e:  # noqa
+                    outcome = "err " + core.err_code(e)
+                ctx.count("run:%d:%s" % (oi, key), bucket="dispatch-run/" + (outcome if outcome != "ran" else "body"))
+                bad = None
+                if outcome == "returned":
+                    unobserved += 1
+                elif exp is not None and ran is not exp:
+                    bad = ("runs %s" % ran.sig) if ran is not None else outcome
+                elif exp is None and ran is not None:
+                    bad = "runs %s" % ran.sig
+                if bad and key not in reported:
+                    reported.add(key)
+                    ctx.violation("dispatch-run:" + key, key + (" after " + prev if prev else ""),
+                                  ("the implementation registered for %s" % exp.sig) if exp is not None else "no matching signature (an error before any body runs)",
+                                  bad, "ka.functions.dispatch(%r, <values of those classes>) in visiting order %d, previous call %s" % (name, oi, prev))
+                prev = key
+    finally:
+        for h, f in saved_f:
+            h.f = f
+    ctx.cov["dispatch_run_unobserved"] = unobserved
